@@ -67,9 +67,7 @@ Proof.
     + rewrite Hk. simpl. rewrite Z.eqb_refl. congruence.
     + specialize (IH _ _ Hin). destruct (resolve s k') as [d|u] eqn:E; simpl; [discriminate|].
       destruct (Z.eqb_spec u k) as [->|Hu]; [|congruence].
-      intros [= ->]. apply IH. rewrite <- E at 2.
-      (* resolve s k' = VVar k and k' = w: then w is a root, so k = w *)
-      rewrite Hr in E. congruence.
+      intros [= ->]. apply IH. congruence.
 Qed.
 
 Lemma uwf_root_no_key s : uwf s -> forall r, resolve s r = VVar r -> ulookup r s = None.
@@ -194,7 +192,7 @@ Qed.
 
 (* ---- unification against a constant *)
 Lemma unify1_inj s pv c : nodupk s ->
-  unify_uf (inj s) pv (VConst c) = option_map inj (unify1 s pv c) /  (forall s', unify1 s pv c = Some s' -> nodupk s').
+  unify_uf (inj s) pv (VConst c) = option_map inj (unify1 s pv c) /\ (forall s', unify1 s pv c = Some s' -> nodupk s').
 Proof.
   intros Hn. unfold unify_uf. destruct pv as [d|v]; cbn [resolve_val unify1].
   - simpl. destruct (const_eqb d c); simpl; split; try reflexivity; intros s' [= <-]; auto; discriminate.
@@ -204,7 +202,7 @@ Proof.
 Qed.
 
 Lemma unify_args_inj pvs : forall s cs, nodupk s ->
-  unify_args_uf (inj s) pvs cs = option_map inj (unify_args s pvs cs) /  (forall s', unify_args s pvs cs = Some s' -> nodupk s').
+  unify_args_uf (inj s) pvs cs = option_map inj (unify_args s pvs cs) /\ (forall s', unify_args s pvs cs = Some s' -> nodupk s').
 Proof.
   induction pvs as [|pv pvs IH]; intros s [|c cs] Hn; cbn [unify_args_uf unify_args];
     try (split; [reflexivity | intros s' [= <-]; auto; discriminate]); try (split; [reflexivity|discriminate]).
@@ -214,7 +212,7 @@ Proof.
 Qed.
 
 Lemma match_fact_inj p pvs s f : nodupk s ->
-  match_fact_uf p pvs (inj s) f = option_map inj (match_fact p pvs s f) /  (forall s', match_fact p pvs s f = Some s' -> nodupk s').
+  match_fact_uf p pvs (inj s) f = option_map inj (match_fact p pvs s f) /\ (forall s', match_fact p pvs s f = Some s' -> nodupk s').
 Proof.
   intros Hn. unfold match_fact_uf, match_fact. destruct (fst f =? p); [apply unify_args_inj; auto|].
   split; [reflexivity|discriminate].
@@ -245,7 +243,7 @@ Proof.
                 = existsb (fun f => is_some (match_fact (apred a) pvs s f)) Sneg).
     { induction Sneg as [|f S' IH]; [reflexivity|]. cbn [existsb]. rewrite IH.
       rewrite (proj1 (match_fact_inj (apred a) pvs s f Hn)). destruct (match_fact (apred a) pvs s f); reflexivity. }
-    rewrite E. destruct (existsb _ Sneg); split; try reflexivity; repeat constructor; auto.
+    rewrite E. clear E. destruct (existsb _ Sneg); split; try reflexivity; repeat constructor; auto.
   - rewrite !(eval_term_uf_inj _ _ Hn).
     destruct (eval_term s l) as [[a|v]|] eqn:El; [| |discriminate];
       destruct (eval_term s r) as [[b|w]|] eqn:Er; try discriminate.
@@ -300,4 +298,818 @@ Proof.
     destruct (flat_map_opt_inj _ (step_uf false Sneg (sel k) p) _ _ Hs
                 (fun s us Hn Hst => step_inj Sneg (sel k) p s us Hn Hst) E) as [E' Hs'].
     rewrite E'. apply IH; auto.
+Qed.
+
+(* ---- heads and let-transforms *)
+Lemma lookup_app v L s : lookup v (L ++ s) = match lookup v L with Some c => Some c | None => lookup v s end.
+Proof. induction L as [|[k c] L IH]; simpl; [reflexivity|]. destruct (v =? k); auto. Qed.
+
+Lemma urow_get_inj s L v : nodupk s -> urow_get (inj s) L v = get_of (L ++ s) v.
+Proof.
+  intros Hn. unfold urow_get, get_of. rewrite lookup_app, (resolve_inj _ Hn). unfold get_of.
+  destruct (lookup v L); [reflexivity|]. destruct (lookup v s); reflexivity.
+Qed.
+
+Lemma run_let_inj s stmts : nodupk s -> forall L,
+  run_let (L ++ s) stmts = option_map (fun L' => L' ++ s) (run_let_uf (inj s) L stmts).
+Proof.
+  intros Hn. induction stmts as [|[v t] rest IH]; intros L; cbn [run_let run_let_uf]; [reflexivity|].
+  rewrite eval_term_get_of. rewrite (eval_term_g_ext _ _ (fun w => eq_sym (urow_get_inj s L w Hn)) t).
+  destruct (eval_term_g (urow_get (inj s) L) t) as [[c|x]|]; try reflexivity.
+  apply (IH ((v, c) :: L)).
+Qed.
+
+Lemma emit_head_inj c s : nodupk s -> emit_head_uf c (inj s) = emit_head c s.
+Proof.
+  intros Hn. unfold emit_head_uf, emit_head. rewrite (eval_args_uf_inj _ _ Hn).
+  destruct (eval_args s (aargs (chead c))) as [pvs|]; [|reflexivity].
+  pose proof (run_let_inj s (clet c) Hn []) as Hl. cbn [app] in Hl. rewrite Hl. clear Hl.
+  destruct (run_let_uf (inj s) [] (clet c)) as [L|]; [|reflexivity]. cbn [option_map].
+  assert (E : map_opt (ground_value_uf (inj s) L) pvs = map_opt (ground_value (L ++ s)) pvs).
+  { apply map_opt_ext. intros [d|v]; [reflexivity|]. cbn [ground_value_uf ground_value].
+    rewrite (urow_get_inj _ _ _ Hn). unfold get_of. destruct (lookup v (L ++ s)); reflexivity. }
+  rewrite E. reflexivity.
+Qed.
+
+Lemma map_opt_map {A B C} (g : A -> B) (f : B -> option C) l : map_opt f (map g l) = map_opt (fun a => f (g a)) l.
+Proof. induction l as [|a l IH]; simpl; [reflexivity|]. rewrite IH. reflexivity. Qed.
+
+Lemma map_opt_ext_in {A B} (f g : A -> option B) l : (forall a, In a l -> f a = g a) -> map_opt f l = map_opt g l.
+Proof.
+  induction l as [|a l IH]; simpl; intros H; [reflexivity|]. rewrite (H a), IH by auto. reflexivity.
+Qed.
+
+Lemma eval_clause_inj Sneg sel c fs :
+  eval_clause Sneg sel c = Some fs -> eval_clause_uf false Sneg sel c = Some fs.
+Proof.
+  unfold eval_clause, eval_clause_uf. intros H.
+  destruct (solve Sneg sel 0 (cbody c) [[]]) as [sols|] eqn:E; [|discriminate].
+  assert (H0 : Forall nodupk [[]]) by (repeat constructor).
+  destruct (solve_inj _ _ _ _ _ _ H0 E) as [E' Hs]. change (map inj [[]]) with ([[]] : list usubst) in E'. rewrite E'.
+  rewrite map_opt_map. rewrite <- H. apply map_opt_ext_in. intros s Hin. apply emit_head_inj.
+  eapply Forall_forall in Hs; eauto.
+Qed.
+
+(* ---- the loop over a clause evaluator: with eval_clause it is SemiNaive.v / Strata.v *)
+Lemma loop_g_solve fuel : forall drules St D, loop_g eval_clause fuel drules St D = loop fuel drules St D.
+Proof.
+  induction fuel as [|n IH]; intros; cbn [loop_g loop]; [reflexivity|].
+  change (round_delta_g eval_clause drules St D) with (round_delta drules St D).
+  destruct (round_delta drules St D); [|reflexivity]. destruct (is_nil _); [reflexivity|apply IH].
+Qed.
+
+Lemma eval_stratum_g_solve fuel rules drules St :
+  eval_stratum_g eval_clause fuel rules drules St = eval_stratum fuel rules drules St.
+Proof.
+  unfold eval_stratum_g, eval_stratum. change (round0_g eval_clause rules St) with (round0 rules St).
+  destruct (round0 rules St); [|reflexivity]. destruct (is_nil _); [reflexivity|apply loop_g_solve].
+Qed.
+
+Lemma eval_strata_g_solve fuel strata : forall St, eval_strata_g eval_clause fuel strata St = eval_strata fuel strata St.
+Proof.
+  induction strata as [|s rest IH]; intros St; cbn [eval_strata_g eval_strata]; [reflexivity|].
+  rewrite eval_stratum_g_solve. destruct (eval_stratum fuel (s_rules s) (s_drules s) St); auto.
+Qed.
+
+Lemma eval_program_g_solve fuel P layers store init :
+  eval_program_g eval_clause fuel P layers store init = eval_program fuel P layers store init.
+Proof. apply eval_strata_g_solve. Qed.
+
+(* ---- a clause evaluator that answers wherever another one answers gives the same
+   program outcome unless the other one reports an error *)
+Section Refine.
+Variables ce1 ce2 : list fact -> (nat -> list fact) -> clause -> option (list fact).
+Hypothesis Href : forall St sel c fs, ce1 St sel c = Some fs -> ce2 St sel c = Some fs.
+
+Lemma flat_map_opt_ref {A} (f g : A -> option (list fact)) l R :
+  (forall a r, f a = Some r -> g a = Some r) -> flat_map_opt f l = Some R -> flat_map_opt g l = Some R.
+Proof.
+  intros H. revert R. induction l as [|a l IH]; intros R; simpl; [auto|].
+  destruct (f a) as [r|] eqn:E; [|discriminate]. rewrite (H _ _ E).
+  destruct (flat_map_opt f l) as [r'|]; [|discriminate]. rewrite (IH _ eq_refl). auto.
+Qed.
+
+Lemma loop_g_ref fuel : forall drules St D o,
+  loop_g ce1 fuel drules St D = o -> o <> EvalError -> loop_g ce2 fuel drules St D = o.
+Proof.
+  induction fuel as [|n IH]; intros drules St D o H Hne; cbn [loop_g] in *; [auto|].
+  unfold round_delta_g in *.
+  destruct (flat_map_opt (fun ci => ce1 St (sel_delta St D (snd ci)) (fst ci)) drules) as [d|] eqn:E; [|congruence].
+  rewrite (flat_map_opt_ref _ (fun ci => ce2 St (sel_delta St D (snd ci)) (fst ci)) _ _
+             (fun ci r Hc => Href _ _ _ _ Hc) E).
+  destruct (is_nil _); auto.
+Qed.
+
+Lemma eval_stratum_g_ref fuel rules drules St o :
+  eval_stratum_g ce1 fuel rules drules St = o -> o <> EvalError -> eval_stratum_g ce2 fuel rules drules St = o.
+Proof.
+  unfold eval_stratum_g, round0_g. intros H Hne.
+  destruct (flat_map_opt (ce1 St (sel_all St)) rules) as [d|] eqn:E; [|congruence].
+  rewrite (flat_map_opt_ref _ (ce2 St (sel_all St)) _ _ (fun c r Hc => Href _ _ _ _ Hc) E).
+  destruct (is_nil _); auto. apply loop_g_ref; auto.
+Qed.
+
+Lemma eval_strata_g_ref fuel strata : forall St o,
+  eval_strata_g ce1 fuel strata St = o -> o <> EvalError -> eval_strata_g ce2 fuel strata St = o.
+Proof.
+  induction strata as [|s rest IH]; intros St o H Hne; cbn [eval_strata_g] in *; [auto|].
+  destruct (eval_stratum_g ce1 fuel (s_rules s) (s_drules s) St) as [St'| |] eqn:E.
+  - rewrite (eval_stratum_g_ref _ _ _ _ _ E) by discriminate. apply IH; auto.
+  - congruence.
+  - rewrite (eval_stratum_g_ref _ _ _ _ _ E) by discriminate. auto.
+Qed.
+End Refine.
+
+(* 2a. the program level: whenever the alias-free model finishes (or runs out of fuel), the
+   union-find model does the same with the same store *)
+Theorem eval_program_uf_conservative fuel P layers store init o :
+  eval_program fuel P layers store init = o -> o <> EvalError ->
+  eval_program_uf false fuel P layers store init = o.
+Proof.
+  intros H Hne. rewrite <- eval_program_g_solve in H. unfold eval_program_uf, eval_program_g in *.
+  exact (eval_strata_g_ref eval_clause (eval_clause_uf false) eval_clause_inj fuel _ _ o H Hne).
+Qed.
+
+(* ================= 3. what a run preserves: well-formedness, extension *)
+
+(* u knows everything s knows: constants stay, aliased variables stay aliased *)
+Definition ext (s u : usubst) : Prop :=
+  (forall v c, resolve s v = VConst c -> resolve u v = VConst c) /\
+  (forall v w, resolve s v = resolve s w -> resolve u v = resolve u w).
+
+Lemma ext_refl s : ext s s.
+Proof. split; auto. Qed.
+
+Lemma ext_trans s u t : ext s u -> ext u t -> ext s t.
+Proof. intros [A B] [C D]. split; auto. Qed.
+
+Lemma ext_cons k x s : ext s ((k, x) :: s).
+Proof.
+  split; intros; rewrite !resolve_cons.
+  - rewrite H. reflexivity.
+  - rewrite H. reflexivity.
+Qed.
+
+Lemma ext_val s u a c : ext s u -> resolve_val s a = VConst c -> resolve_val u a = VConst c.
+Proof. intros [A _]. destruct a; simpl; auto. Qed.
+
+(* the value a variable evaluated to under s, looked up again later *)
+Lemma resolve_val_later s u v : uwf s -> ext s u -> resolve_val u (resolve s v) = resolve u v.
+Proof.
+  intros Hw [A B]. destruct (resolve s v) as [d|r] eqn:E; simpl.
+  - symmetry. auto.
+  - apply B. rewrite E. eapply resolve_root; eauto.
+Qed.
+
+Definition is_root (s : usubst) (a : value) : Prop :=
+  match a with VVar r => resolve s r = VVar r | VConst _ => True end.
+
+Lemma resolve_val_is_root s a : uwf s -> is_root s (resolve_val s a).
+Proof.
+  intros Hw. destruct a as [c|v]; simpl; [exact I|].
+  destruct (resolve s v) as [d|r] eqn:E; simpl; [exact I|]. eapply resolve_root; eauto.
+Qed.
+
+Lemma unify_roots_shape s a b u : unify_roots s a b = Some u -> u = s \/ exists k x, u = (k, x) :: s.
+Proof.
+  destruct a as [c|v], b as [d|w]; simpl.
+  - destruct (const_eqb c d); [intros [= <-]; auto | discriminate].
+  - intros [= <-]. right. eauto.
+  - intros [= <-]. right. eauto.
+  - destruct (v =? w); intros [= <-]; [auto | right; eauto].
+Qed.
+
+Lemma unify_roots_wf s a b u : uwf s -> is_root s a -> is_root s b -> unify_roots s a b = Some u -> uwf u.
+Proof.
+  intros Hw Ha Hb. destruct a as [c|v], b as [d|w]; simpl in *.
+  - destruct (const_eqb c d); [intros [= <-]; auto | discriminate].
+  - intros [= <-]. constructor; auto.
+  - intros [= <-]. constructor; auto.
+  - destruct (Z.eqb_spec v w); intros [= <-]; [auto | constructor; auto].
+Qed.
+
+Lemma unify_uf_wf s a b u : uwf s -> unify_uf s a b = Some u -> uwf u.
+Proof. intros Hw. apply unify_roots_wf; auto using resolve_val_is_root. Qed.
+
+Lemma unify_uf_ext s a b u : unify_uf s a b = Some u -> ext s u.
+Proof.
+  intros H. apply unify_roots_shape in H as [->|(k & x & ->)]; [apply ext_refl | apply ext_cons].
+Qed.
+
+(* after a successful unification both sides resolve to the same *)
+Lemma unify_uf_eq s a b u : unify_uf s a b = Some u -> resolve_val u a = resolve_val u b.
+Proof.
+  unfold unify_uf. intros H.
+  assert (Hc : forall k x, u = (k, x) :: s ->
+               thru k x (resolve_val s a) = thru k x (resolve_val s b) -> resolve_val u a = resolve_val u b).
+  { intros k x -> E. rewrite !resolve_val_cons. exact E. }
+  destruct (resolve_val s a) as [c|v] eqn:Ea, (resolve_val s b) as [d|w] eqn:Eb; simpl in H.
+  - destruct (const_eqb c d) eqn:E; [|discriminate]. injection H as <-. apply const_eqb_spec in E. congruence.
+  - injection H as <-. apply (Hc w (VConst c) eq_refl). simpl. rewrite Z.eqb_refl. reflexivity.
+  - injection H as <-. apply (Hc v (VConst d) eq_refl). simpl. rewrite Z.eqb_refl. reflexivity.
+  - destruct (Z.eqb_spec v w) as [->|Hne].
+    + injection H as <-. congruence.
+    + injection H as <-. apply (Hc v (VVar w) eq_refl). simpl. rewrite Z.eqb_refl.
+      destruct (Z.eqb_spec w v); congruence.
+Qed.
+
+Lemma unify_args_uf_props pvs : forall s cs u,
+  uwf s -> unify_args_uf s pvs cs = Some u ->
+  uwf u /\ ext s u /\ Forall2 (fun pv c => resolve_val u pv = VConst c) pvs cs.
+Proof.
+  induction pvs as [|pv pvs IH]; intros s [|c cs] u Hw H; cbn [unify_args_uf] in H; try discriminate.
+  - injection H as <-. split; [auto|]. split; [apply ext_refl | constructor].
+  - destruct (unify_uf s pv (VConst c)) as [s1|] eqn:E; [|discriminate].
+    destruct (IH _ _ _ (unify_uf_wf _ _ _ _ Hw E) H) as (Hu & He & Hf).
+    split; [exact Hu|]. split.
+    + eapply ext_trans; [eapply unify_uf_ext; eauto | exact He].
+    + constructor; auto. eapply ext_val; eauto. apply (unify_uf_eq _ _ _ _ E).
+Qed.
+
+Lemma match_fact_uf_props p pvs s f u :
+  uwf s -> match_fact_uf p pvs s f = Some u ->
+  fst f = p /\ uwf u /\ ext s u /\ Forall2 (fun pv c => resolve_val u pv = VConst c) pvs (snd f).
+Proof.
+  unfold match_fact_uf. intros Hw H. destruct (Z.eqb_spec (fst f) p); [|discriminate].
+  split; auto. eapply unify_args_uf_props; eauto.
+Qed.
+
+Lemma step_uf_props strict Sneg Spos p s us :
+  uwf s -> step_uf strict Sneg Spos p s = Some us -> forall u, In u us -> uwf u /\ ext s u.
+Proof.
+  intros Hw H u Hu. destruct p as [a|a|l r|l r|op l r]; cbn [step_uf step_pure_uf] in H.
+  - destruct (eval_args_uf s (aargs a)) as [pvs|]; [|discriminate]. injection H as <-.
+    apply in_fmap in Hu as (f & _ & Hm). apply match_fact_uf_props in Hm; tauto.
+  - destruct (eval_args_uf s (aargs a)) as [pvs|]; [|discriminate].
+    destruct (strict && _); [discriminate|]. injection H as <-.
+    destruct (existsb _ Sneg); [destruct Hu|]. destruct Hu as [<-|[]]. split; auto using ext_refl.
+  - destruct (eval_term_uf s l) as [a|]; [|discriminate]. destruct (eval_term_uf s r) as [b|]; [|discriminate].
+    injection H as <-. destruct (unify_uf s a b) as [s'|] eqn:E; [|destruct Hu].
+    destruct Hu as [<-|[]]. split; [eapply unify_uf_wf; eauto | eapply unify_uf_ext; eauto].
+  - destruct (eval_term_uf s l) as [a|]; [|discriminate]. destruct (eval_term_uf s r) as [b|]; [|discriminate].
+    destruct (strict && _); [discriminate|]. injection H as <-.
+    destruct (unify_uf s a b); [destruct Hu|]. destruct Hu as [<-|[]]. split; auto using ext_refl.
+  - destruct (eval_term_uf s l) as [[a|?]|]; try discriminate. destruct (eval_term_uf s r) as [[b|?]|]; try discriminate.
+    destruct (eval_cmp op a b) as [[|]|]; try discriminate; injection H as <-; [|destruct Hu].
+    destruct Hu as [<-|[]]. split; auto using ext_refl.
+Qed.
+
+Lemma solve_uf_props strict Sneg sel body : forall k sols R,
+  Forall uwf sols -> solve_uf strict Sneg sel k body sols = Some R ->
+  forall t, In t R -> uwf t /\ exists s, In s sols /\ ext s t.
+Proof.
+  induction body as [|p b IH]; intros k sols R Hs H t Ht; cbn [solve_uf] in H.
+  - injection H as <-. split; [eapply Forall_forall; eauto | exists t; auto using ext_refl].
+  - destruct (flat_map_opt (step_uf strict Sneg (sel k) p) sols) as [sols'|] eqn:E; [|discriminate].
+    destruct (flat_map_opt_spec _ _ _ E) as [_ Hin].
+    assert (Hs' : Forall uwf sols').
+    { apply Forall_forall. intros u Hu. apply Hin in Hu as (s & us & Hsin & Hst & Huin).
+      assert (Hws : uwf s) by (exact (proj1 (Forall_forall _ _) Hs s Hsin)).
+      exact (proj1 (step_uf_props _ _ _ _ _ _ Hws Hst u Huin)). }
+    destruct (IH _ _ _ Hs' H t Ht) as (Hwt & u & Hu & Hext). split; auto.
+    apply Hin in Hu as (s & us & Hsin & Hst & Huin). exists s. split; auto.
+    eapply ext_trans; [|exact Hext].
+    assert (Hws : uwf s) by (exact (proj1 (Forall_forall _ _) Hs s Hsin)).
+    exact (proj2 (step_uf_props _ _ _ _ _ _ Hws Hst u Huin)).
+Qed.
+
+(* every premise of the body was stepped through on the way to a solution *)
+Lemma solve_uf_premise strict Sneg sel body : forall k sols R,
+  Forall uwf sols -> solve_uf strict Sneg sel k body sols = Some R ->
+  forall p t, In p body -> In t R ->
+  exists i s us u, step_uf strict Sneg (sel i) p s = Some us /\ uwf s /\ In u us /\ ext u t.
+Proof.
+  induction body as [|q b IH]; intros k sols R Hs H p t Hp Ht; cbn [solve_uf] in H; [destruct Hp|].
+  destruct (flat_map_opt (step_uf strict Sneg (sel k) q) sols) as [sols'|] eqn:E; [|discriminate].
+  destruct (flat_map_opt_spec _ _ _ E) as [_ Hin].
+  assert (Hs' : Forall uwf sols').
+  { apply Forall_forall. intros u Hu. apply Hin in Hu as (s & us & Hsin & Hst & Huin).
+    assert (Hws : uwf s) by (exact (proj1 (Forall_forall _ _) Hs s Hsin)).
+    exact (proj1 (step_uf_props _ _ _ _ _ _ Hws Hst u Huin)). }
+  destruct Hp as [->|Hp].
+  - destruct (solve_uf_props _ _ _ _ _ _ _ Hs' H t Ht) as (_ & u & Hu & Hext).
+    apply Hin in Hu as (s & us & Hsin & Hst & Huin). exists k, s, us, u.
+    split; [exact Hst|]. split; [exact (proj1 (Forall_forall _ _) Hs s Hsin)|]. split; [exact Huin | exact Hext].
+  - eapply IH; eauto.
+Qed.
+
+(* ---- 3c. the variables a solution must give a constant to *)
+Inductive must_bound (body : list premise) : Z -> Prop :=
+| mb_atom a v : In (PAtom a) body -> In (TVar v) (aargs a) -> must_bound body v
+| mb_val_l x t : In (PEq (TVar x) t) body -> (forall y, t <> TVar y) -> must_bound body x
+| mb_val_r x t : In (PEq t (TVar x)) body -> (forall y, t <> TVar y) -> must_bound body x
+| mb_alias_l x y : In (PEq (TVar x) (TVar y)) body -> must_bound body y -> must_bound body x
+| mb_alias_r x y : In (PEq (TVar x) (TVar y)) body -> must_bound body x -> must_bound body y.
+
+Lemma map_opt_Forall2 {A B} (f : A -> option B) l r : map_opt f l = Some r -> Forall2 (fun a b => f a = Some b) l r.
+Proof.
+  revert r. induction l as [|a l IH]; intros r; simpl.
+  - intros [= <-]. constructor.
+  - destruct (f a) as [b|] eqn:E; [|discriminate]. destruct (map_opt f l) as [r'|]; [|discriminate].
+    intros [= <-]. constructor; auto.
+Qed.
+
+Lemma Forall2_chain {A B C} (P : A -> B -> Prop) (Q : B -> C -> Prop) la lb lc a :
+  Forall2 P la lb -> Forall2 Q lb lc -> In a la -> exists b c, P a b /\ Q b c.
+Proof.
+  intros H. revert lc. induction H as [|x y la lb Hxy H IH]; intros lc HQ Hin; [destruct Hin|].
+  inversion HQ as [|? z ? lc' Hyz HQ']; subst. destruct Hin as [->|Hin]; [eauto | eapply IH; eauto].
+Qed.
+
+(* a term that is not a variable evaluates to a constant *)
+Lemma eval_term_g_nonvar get t x : (forall y, t <> TVar y) -> eval_term_g get t = Some x -> exists c, x = VConst c.
+Proof.
+  destruct t as [y|c|f args]; intros Hn H.
+  - exfalso. eapply Hn; eauto.
+  - injection H as <-. eauto.
+  - rewrite eval_term_g_app in H. destruct (eval_consts_g get args); [|discriminate].
+    destruct (eval_fn f l); [|discriminate]. injection H as <-. eauto.
+Qed.
+
+Lemma step_eq_effect strict Sneg Spos l r s us u :
+  uwf s -> step_uf strict Sneg Spos (PEq l r) s = Some us -> In u us ->
+  exists a b, eval_term_uf s l = Some a /\ eval_term_uf s r = Some b /\ ext s u /\ resolve_val u a = resolve_val u b.
+Proof.
+  intros Hw H Hu. cbn [step_uf step_pure_uf] in H.
+  destruct (eval_term_uf s l) as [a|]; [|discriminate]. destruct (eval_term_uf s r) as [b|]; [|discriminate].
+  injection H as <-. destruct (unify_uf s a b) as [s'|] eqn:E; [|destruct Hu]. destruct Hu as [<-|[]].
+  exists a, b. split; [reflexivity|]. split; [reflexivity|].
+  split; [eapply unify_uf_ext; eauto | eapply unify_uf_eq; eauto].
+Qed.
+
+Theorem solve_uf_resolved_all strict Sneg sel body k sols R t :
+  Forall uwf sols -> solve_uf strict Sneg sel k body sols = Some R -> In t R ->
+  forall v, must_bound body v -> exists c, resolve t v = VConst c.
+Proof.
+  intros Hs H Ht v Hv.
+  induction Hv as [a v Ha Hv | x tm Hp Hn | x tm Hp Hn | x y Hp Hy IH | x y Hp Hx IH].
+  - destruct (solve_uf_premise _ _ _ _ _ _ _ Hs H _ _ Ha Ht) as (i & s & us & u & Hst & Hw & Hu & Hext).
+    cbn [step_uf] in Hst. destruct (eval_args_uf s (aargs a)) as [pvs|] eqn:Ea; [|discriminate].
+    injection Hst as <-. apply in_fmap in Hu as (f & _ & Hm).
+    apply match_fact_uf_props in Hm as (_ & _ & Hsu & Hf); auto.
+    destruct (Forall2_chain _ _ _ _ _ _ (map_opt_Forall2 _ _ _ Ea) Hf Hv) as (pv & c & Hpv & Hc).
+    injection Hpv as <-. rewrite (resolve_val_later _ _ _ Hw Hsu) in Hc.
+    exists c. apply (proj1 Hext). exact Hc.
+  - destruct (solve_uf_premise _ _ _ _ _ _ _ Hs H _ _ Hp Ht) as (i & s & us & u & Hst & Hw & Hu & Hext).
+    destruct (step_eq_effect _ _ _ _ _ _ _ _ Hw Hst Hu) as (a & b & Ea & Eb & Hsu & He).
+    injection Ea as <-. destruct (eval_term_g_nonvar _ _ _ Hn Eb) as (c & ->).
+    rewrite (resolve_val_later _ _ _ Hw Hsu) in He. exists c. apply (proj1 Hext). exact He.
+  - destruct (solve_uf_premise _ _ _ _ _ _ _ Hs H _ _ Hp Ht) as (i & s & us & u & Hst & Hw & Hu & Hext).
+    destruct (step_eq_effect _ _ _ _ _ _ _ _ Hw Hst Hu) as (a & b & Ea & Eb & Hsu & He).
+    injection Eb as <-. destruct (eval_term_g_nonvar _ _ _ Hn Ea) as (c & ->).
+    rewrite (resolve_val_later _ _ _ Hw Hsu) in He. exists c. apply (proj1 Hext). symmetry. exact He.
+  - destruct IH as (c & Hc).
+    destruct (solve_uf_premise _ _ _ _ _ _ _ Hs H _ _ Hp Ht) as (i & s & us & u & Hst & Hw & Hu & Hext).
+    destruct (step_eq_effect _ _ _ _ _ _ _ _ Hw Hst Hu) as (a & b & Ea & Eb & Hsu & He).
+    injection Ea as <-. injection Eb as <-. rewrite !(resolve_val_later _ _ _ Hw Hsu) in He.
+    exists c. rewrite <- Hc. apply (proj2 Hext). exact He.
+  - destruct IH as (c & Hc).
+    destruct (solve_uf_premise _ _ _ _ _ _ _ Hs H _ _ Hp Ht) as (i & s & us & u & Hst & Hw & Hu & Hext).
+    destruct (step_eq_effect _ _ _ _ _ _ _ _ Hw Hst Hu) as (a & b & Ea & Eb & Hsu & He).
+    injection Ea as <-. injection Eb as <-. rewrite !(resolve_val_later _ _ _ Hw Hsu) in He.
+    exists c. rewrite <- Hc. apply (proj2 Hext). symmetry. exact He.
+Qed.
+
+(* ================= 4. the declarative reading of a strict run *)
+Definition val := Z -> const.
+Definition den (rho : val) (x : value) : const := match x with VConst c => c | VVar v => rho v end.
+(* rho satisfies the constraints s stands for *)
+Definition models (rho : val) (s : usubst) : Prop := forall k x, In (k, x) s -> rho k = den rho x.
+
+Lemma models_nil rho : models rho [].
+Proof. intros k x []. Qed.
+
+Lemma models_cons rho k x s : models rho ((k, x) :: s) <-> rho k = den rho x /\ models rho s.
+Proof.
+  split.
+  - intros H. split; [apply H; left; auto | intros k' x' Hin; apply H; right; auto].
+  - intros [H1 H2] k' x' [[= <- <-]|Hin]; auto.
+Qed.
+
+Lemma resolve_sound rho s : models rho s -> forall v, den rho (resolve s v) = rho v.
+Proof.
+  induction s as [|[k x] s IH]; intros Hm v; [reflexivity|].
+  apply models_cons in Hm as [Hk Hs]. rewrite resolve_cons. specialize (IH Hs v).
+  destruct (resolve s v) as [c|u]; simpl in *; [exact IH|].
+  destruct (Z.eqb_spec u k) as [->|_]; [congruence | exact IH].
+Qed.
+
+Lemma resolve_val_sound rho s a : models rho s -> den rho (resolve_val s a) = den rho a.
+Proof. intros Hm. destruct a; simpl; [reflexivity | apply resolve_sound; auto]. Qed.
+
+(* ---- ground evaluation under a valuation *)
+Fixpoint geval (rho : val) (t : term) : option const :=
+  match t with
+  | TVar v => Some (rho v)
+  | TConst c => Some c
+  | TApp f args =>
+      match (fix go (l : list term) : option (list const) :=
+               match l with
+               | [] => Some []
+               | a :: l' => match geval rho a with
+                            | Some c => match go l' with Some cs => Some (c :: cs) | None => None end
+                            | None => None
+                            end
+               end) args with
+      | Some cs => eval_fn f cs
+      | None => None
+      end
+  end.
+Definition gargs (rho : val) (ts : list term) : option (list const) := map_opt (geval rho) ts.
+
+Lemma geval_app rho f args :
+  geval rho (TApp f args) = match gargs rho args with Some cs => eval_fn f cs | None => None end.
+Proof.
+  cbn [geval].
+  match goal with |- match ?g args with _ => _ end = _ => assert (E : forall l, g l = gargs rho l) end.
+  { induction l as [|a l IHl]; [reflexivity|]. unfold gargs. cbn [map_opt]. fold (gargs rho l).
+    rewrite <- IHl. destruct (geval rho a); reflexivity. }
+  rewrite E. reflexivity.
+Qed.
+
+Lemma eval_term_g_sound get rho : (forall v, den rho (get v) = rho v) ->
+  forall t x, eval_term_g get t = Some x -> geval rho t = Some (den rho x).
+Proof.
+  intros Hg. induction t as [v|c|f args IH] using term_ind2; intros x H.
+  - injection H as <-. simpl. rewrite Hg. reflexivity.
+  - injection H as <-. reflexivity.
+  - rewrite eval_term_g_app in H. rewrite geval_app.
+    destruct (eval_consts_g get args) as [cs|] eqn:E; [|discriminate].
+    assert (Ea : gargs rho args = Some cs).
+    { clear H. revert cs E. unfold eval_consts_g, gargs. induction IH as [|a args Ha _ IHl]; intros cs E; cbn [map_opt] in *.
+      - exact E.
+      - destruct (eval_term_g get a) as [[c|?]|] eqn:Et; try discriminate.
+        rewrite (Ha _ eq_refl). simpl.
+        destruct (map_opt _ args) as [r|]; [|discriminate]. rewrite (IHl _ eq_refl). exact E. }
+    rewrite Ea. destruct (eval_fn f cs); [|discriminate]. injection H as <-. reflexivity.
+Qed.
+
+Lemma eval_term_uf_sound rho s t x : models rho s -> eval_term_uf s t = Some x -> geval rho t = Some (den rho x).
+Proof. intros Hm. apply eval_term_g_sound. intros v. apply resolve_sound; auto. Qed.
+
+Lemma eval_args_uf_sound rho s : models rho s -> forall ts pvs,
+  eval_args_uf s ts = Some pvs -> gargs rho ts = Some (map (den rho) pvs).
+Proof.
+  intros Hm. unfold eval_args_uf, gargs. induction ts as [|t ts IH]; intros pvs H; cbn [map_opt] in *.
+  - injection H as <-. reflexivity.
+  - destruct (eval_term_uf s t) as [x|] eqn:E; [|discriminate].
+    destruct (map_opt (eval_term_uf s) ts) as [r|]; [|discriminate]. injection H as <-.
+    rewrite (eval_term_uf_sound _ _ _ _ Hm E), (IH _ eq_refl). reflexivity.
+Qed.
+
+(* ---- what the premises say about a valuation *)
+Definition gholds (Sneg Spos : list fact) (rho : val) (p : premise) : Prop :=
+  match p with
+  | PAtom a => exists cs, gargs rho (aargs a) = Some cs /\ In (apred a, cs) Spos
+  | PNeg a => exists cs, gargs rho (aargs a) = Some cs /\ ~ In (apred a, cs) Sneg
+  | PEq l r => exists c, geval rho l = Some c /\ geval rho r = Some c
+  | PIneq l r => exists a b, geval rho l = Some a /\ geval rho r = Some b /\ a <> b
+  | PCmp op l r => exists a b, geval rho l = Some a /\ geval rho r = Some b /\ eval_cmp op a b = Some true
+  end.
+
+Fixpoint gsat (Sneg : list fact) (sel : nat -> list fact) (k : nat) (rho : val) (body : list premise) : Prop :=
+  match body with
+  | [] => True
+  | p :: b => gholds Sneg (sel k) rho p /\ gsat Sneg sel (S k) rho b
+  end.
+
+(* ---- unification = conjunction of an equation *)
+Lemma unify_roots_models s a b :
+  (forall u, unify_roots s a b = Some u -> forall rho, models rho u <-> models rho s /\ den rho a = den rho b) /\
+  (unify_roots s a b = None -> forall rho, den rho a <> den rho b).
+Proof.
+  destruct a as [c|v], b as [d|w]; simpl.
+  - destruct (const_eqb c d) eqn:E; split; try discriminate.
+    + intros u [= <-] rho. apply const_eqb_spec in E. tauto.
+    + intros _ rho Hcd. apply const_eqb_spec in Hcd. congruence.
+  - split; [|discriminate]. intros u [= <-] rho. rewrite models_cons. simpl. split; intros [A B]; auto.
+  - split; [|discriminate]. intros u [= <-] rho. rewrite models_cons. simpl. tauto.
+  - split; [|destruct (v =? w); discriminate]. intros u H rho.
+    destruct (Z.eqb_spec v w) as [->|_]; injection H as <-; [tauto|]. rewrite models_cons. simpl. tauto.
+Qed.
+
+Lemma unify_uf_models s a b :
+  (forall u, unify_uf s a b = Some u -> forall rho, models rho u <-> models rho s /\ den rho a = den rho b) /\
+  (unify_uf s a b = None -> forall rho, models rho s -> den rho a <> den rho b).
+Proof.
+  unfold unify_uf. destruct (unify_roots_models s (resolve_val s a) (resolve_val s b)) as [H1 H2]. split.
+  - intros u Hu rho. rewrite (H1 u Hu rho). split; intros [Hm He]; split; auto.
+    + rewrite <- (resolve_val_sound rho s a Hm), <- (resolve_val_sound rho s b Hm). exact He.
+    + rewrite (resolve_val_sound rho s a Hm), (resolve_val_sound rho s b Hm). exact He.
+  - intros Hn rho Hm. rewrite <- (resolve_val_sound rho s a Hm), <- (resolve_val_sound rho s b Hm). apply H2; auto.
+Qed.
+
+Lemma unify_args_uf_models pvs : forall s cs,
+  (forall u, unify_args_uf s pvs cs = Some u -> forall rho, models rho u <-> models rho s /\ map (den rho) pvs = cs) /\
+  (unify_args_uf s pvs cs = None -> forall rho, models rho s -> map (den rho) pvs <> cs).
+Proof.
+  induction pvs as [|pv pvs IH]; intros s [|c cs]; cbn [unify_args_uf map].
+  - split; [|discriminate]. intros u [= <-] rho. tauto.
+  - split; [discriminate|]. intros _ rho _. discriminate.
+  - split; [discriminate|]. intros _ rho _. discriminate.
+  - destruct (unify_uf_models s pv (VConst c)) as [U1 U2].
+    destruct (unify_uf s pv (VConst c)) as [s1|] eqn:E.
+    + destruct (IH s1 cs) as [I1 I2]. split.
+      * intros u Hu rho. rewrite (I1 u Hu rho), (U1 s1 eq_refl rho). simpl. split.
+        -- intros [[Hm He] Ht]. split; auto. congruence.
+        -- intros [Hm [= He Ht]]. auto.
+      * intros Hn rho Hm [= He Ht]. apply (I2 Hn rho); auto. apply (U1 s1 eq_refl rho). auto.
+    + split; [discriminate|]. intros _ rho Hm [= He Ht]. apply (U2 eq_refl rho Hm). exact He.
+Qed.
+
+Lemma match_fact_uf_models p pvs s f :
+  (forall u, match_fact_uf p pvs s f = Some u -> forall rho, models rho u <-> models rho s /\ f = (p, map (den rho) pvs)) /\
+  (match_fact_uf p pvs s f = None -> forall rho, models rho s -> f <> (p, map (den rho) pvs)).
+Proof.
+  unfold match_fact_uf. destruct f as [q cs]. cbn [fst snd]. destruct (Z.eqb_spec q p) as [->|Hne].
+  - destruct (unify_args_uf_models pvs s cs) as [A B]. split.
+    + intros u Hu rho. rewrite (A u Hu rho). split; intros [Hm He]; split; auto; congruence.
+    + intros Hn rho Hm [= He]. apply (B Hn rho Hm). auto.
+  - split; [discriminate|]. intros _ rho _ [= He _]. contradiction.
+Qed.
+
+(* constants only: unification is comparison, the substitution is untouched *)
+Lemma unify_args_uf_ground pvs : forall s cs u,
+  forallb is_vconst pvs = true -> unify_args_uf s pvs cs = Some u -> u = s.
+Proof.
+  induction pvs as [|pv pvs IH]; intros s [|c cs] u Hg H; cbn [unify_args_uf] in H; try discriminate.
+  - congruence.
+  - cbn [forallb] in Hg. apply andb_true_iff in Hg as [Hv Hg]. destruct pv as [d|?]; [|discriminate].
+    unfold unify_uf in H. simpl in H. destruct (const_eqb d c); [|discriminate]. eapply IH; eauto.
+Qed.
+
+(* ---- one premise of a strict run: the solutions' models are the models of the input
+   that satisfy the premise *)
+Lemma step_uf_models Sneg Spos p s us :
+  step_uf true Sneg Spos p s = Some us ->
+  forall rho, (exists u, In u us /\ models rho u) <-> (models rho s /\ gholds Sneg Spos rho p).
+Proof.
+  intros H rho. destruct p as [a|a|l r|l r|op l r]; cbn [step_uf step_pure_uf gholds andb] in *.
+  - destruct (eval_args_uf s (aargs a)) as [pvs|] eqn:Ea; [|discriminate]. injection H as <-. split.
+    + intros (u & Hu & Hm). apply in_fmap in Hu as (f & Hf & Hmf).
+      apply (proj1 (match_fact_uf_models _ _ _ _) u Hmf rho) in Hm as [Hs ->].
+      split; auto. exists (map (den rho) pvs). split; auto. eapply eval_args_uf_sound; eauto.
+    + intros (Hs & cs & Hg & Hin). rewrite (eval_args_uf_sound _ _ Hs _ _ Ea) in Hg. injection Hg as <-.
+      destruct (match_fact_uf (apred a) pvs s (apred a, map (den rho) pvs)) as [u|] eqn:Em.
+      * exists u. split; [apply in_fmap; eauto|].
+        apply (proj1 (match_fact_uf_models _ _ _ _) u Em rho). auto.
+      * exfalso. apply (proj2 (match_fact_uf_models _ _ _ _) Em rho Hs). reflexivity.
+  - destruct (eval_args_uf s (aargs a)) as [pvs|] eqn:Ea; [|discriminate].
+    destruct (forallb is_vconst pvs) eqn:Hg; [|discriminate]. cbn [negb] in H. injection H as <-.
+    destruct (existsb (fun f => is_some (match_fact_uf (apred a) pvs s f)) Sneg) eqn:Ex.
+    + split; [intros (u & [] & _)|]. intros (Hs & cs & Hga & Hnin). exfalso. apply Hnin.
+      apply existsb_exists in Ex as (f & Hf & Hsome).
+      destruct (match_fact_uf (apred a) pvs s f) as [u|] eqn:Em; [|discriminate].
+      assert (u = s).
+      { unfold match_fact_uf in Em. destruct (fst f =? apred a); [|discriminate]. eapply unify_args_uf_ground; eauto. }
+      subst u. rewrite (eval_args_uf_sound _ _ Hs _ _ Ea) in Hga. injection Hga as <-.
+      destruct (proj1 (proj1 (match_fact_uf_models _ _ _ _) s Em rho) Hs) as [_ <-]. exact Hf.
+    + split.
+      * intros (u & [<-|[]] & Hm). split; auto. exists (map (den rho) pvs). split; [eapply eval_args_uf_sound; eauto|].
+        intros Hin. assert (Ht : existsb (fun f => is_some (match_fact_uf (apred a) pvs s f)) Sneg = true); [|congruence].
+        apply existsb_exists. exists (apred a, map (den rho) pvs). split; auto.
+        destruct (match_fact_uf (apred a) pvs s (apred a, map (den rho) pvs)) eqn:Em; [reflexivity|].
+        exfalso. apply (proj2 (match_fact_uf_models _ _ _ _) Em rho Hm). reflexivity.
+      * intros (Hs & _). exists s. split; [left|]; auto.
+  - destruct (eval_term_uf s l) as [a|] eqn:El; [|discriminate]. destruct (eval_term_uf s r) as [b|] eqn:Er; [|discriminate].
+    injection H as <-. destruct (unify_uf_models s a b) as [U1 U2]. split.
+    + intros (u & Hu & Hm). destruct (unify_uf s a b) as [s'|]; [|destruct Hu]. destruct Hu as [<-|[]].
+      apply (U1 _ eq_refl rho) in Hm as [Hs He]. split; auto. exists (den rho a).
+      rewrite (eval_term_uf_sound _ _ _ _ Hs El), (eval_term_uf_sound _ _ _ _ Hs Er), He. auto.
+    + intros (Hs & c & Hl & Hr). rewrite (eval_term_uf_sound _ _ _ _ Hs El) in Hl. rewrite (eval_term_uf_sound _ _ _ _ Hs Er) in Hr.
+      destruct (unify_uf s a b) as [s'|] eqn:E.
+      * exists s'. split; [left; auto|]. apply (U1 _ eq_refl rho). split; auto. congruence.
+      * exfalso. apply (U2 eq_refl rho Hs). congruence.
+  - destruct (eval_term_uf s l) as [a|] eqn:El; [|discriminate]. destruct (eval_term_uf s r) as [b|] eqn:Er; [|discriminate].
+    destruct a as [a|?]; [|discriminate]. destruct b as [b|?]; [|discriminate]. cbn [is_vconst andb negb] in H.
+    injection H as <-. unfold unify_uf. simpl. split.
+    + intros (u & Hu & Hm). destruct (const_eqb a b) eqn:E; [destruct Hu|]. destruct Hu as [<-|[]].
+      split; auto. exists a, b. rewrite (eval_term_uf_sound _ _ _ _ Hm El), (eval_term_uf_sound _ _ _ _ Hm Er).
+      repeat split; auto. intros ->. assert (const_eqb b b = true) by (apply const_eqb_spec; auto). congruence.
+    + intros (Hs & a' & b' & Hl & Hr & Hne). rewrite (eval_term_uf_sound _ _ _ _ Hs El) in Hl. rewrite (eval_term_uf_sound _ _ _ _ Hs Er) in Hr.
+      simpl in Hl, Hr. injection Hl as <-. injection Hr as <-.
+      destruct (const_eqb a b) eqn:E; [apply const_eqb_spec in E; contradiction|]. exists s. split; [left|]; auto.
+  - destruct (eval_term_uf s l) as [[a|?]|] eqn:El; try discriminate. destruct (eval_term_uf s r) as [[b|?]|] eqn:Er; try discriminate.
+    split.
+    + intros (u & Hu & Hm). destruct (eval_cmp op a b) as [[|]|] eqn:Ec; try discriminate; injection H as <-; [|destruct Hu].
+      destruct Hu as [<-|[]]. split; auto. exists a, b.
+      rewrite (eval_term_uf_sound _ _ _ _ Hm El), (eval_term_uf_sound _ _ _ _ Hm Er). auto.
+    + intros (Hs & a' & b' & Hl & Hr & Hc). rewrite (eval_term_uf_sound _ _ _ _ Hs El) in Hl. rewrite (eval_term_uf_sound _ _ _ _ Hs Er) in Hr.
+      simpl in Hl, Hr. injection Hl as <-. injection Hr as <-. rewrite Hc in H. injection H as <-.
+      exists s. split; [left|]; auto.
+Qed.
+
+Lemma solve_uf_models Sneg sel body : forall k sols R,
+  solve_uf true Sneg sel k body sols = Some R ->
+  forall rho, (exists t, In t R /\ models rho t) <-> ((exists s, In s sols /\ models rho s) /\ gsat Sneg sel k rho body).
+Proof.
+  induction body as [|p b IH]; intros k sols R H rho; cbn [solve_uf gsat] in *.
+  - injection H as <-. tauto.
+  - destruct (flat_map_opt (step_uf true Sneg (sel k) p) sols) as [sols'|] eqn:E; [|discriminate].
+    destruct (flat_map_opt_spec _ _ _ E) as [Hdef Hin]. rewrite (IH _ _ _ H rho). split.
+    + intros ((u & Hu & Hm) & Hb). apply Hin in Hu as (s & us & Hs & Hst & Huin).
+      destruct (proj1 (step_uf_models _ _ _ _ _ Hst rho) (ex_intro _ u (conj Huin Hm))) as [Hms Hp].
+      split; [eauto | split; auto].
+    + intros ((s & Hs & Hms) & Hp & Hb). destruct (Hdef s Hs) as (us & Hst).
+      destruct (proj2 (step_uf_models _ _ _ _ _ Hst rho) (conj Hms Hp)) as (u & Huin & Hm).
+      split; auto. exists u. split; auto. apply Hin. exists s, us. auto.
+Qed.
+
+(* ---- every well-formed substitution has a model *)
+Definition closed (s : usubst) : Prop := forall k x, In (k, x) s -> resolve s k = resolve_val s x.
+
+Lemma uwf_closed s : uwf s -> closed s.
+Proof.
+  induction 1 as [|k c s Hw IH Hk|k w s Hw IH Hk Hr Hne]; intros a y Hin.
+  - destruct Hin.
+  - destruct Hin as [[= <- <-]|Hin].
+    + rewrite resolve_cons, Hk. simpl. rewrite Z.eqb_refl. reflexivity.
+    + rewrite resolve_cons, resolve_val_cons, (IH _ _ Hin). reflexivity.
+  - destruct Hin as [[= <- <-]|Hin].
+    + rewrite resolve_cons, resolve_val_cons, Hk. simpl. rewrite Hr. simpl. rewrite Z.eqb_refl.
+      destruct (Z.eqb_spec w k); congruence.
+    + rewrite resolve_cons, resolve_val_cons, (IH _ _ Hin). reflexivity.
+Qed.
+
+Definition canon (s : usubst) : val := fun v => match resolve s v with VConst c => c | VVar _ => CNil end.
+
+Lemma canon_models s : uwf s -> models (canon s) s.
+Proof.
+  intros Hw k x Hin. unfold canon at 1. rewrite (uwf_closed s Hw k x Hin). destruct x as [c|w]; reflexivity.
+Qed.
+
+(* ---- the variables a substitution mentions *)
+Definition vin (P : Z -> Prop) (a : value) : Prop := match a with VVar v => P v | VConst _ => True end.
+Definition svars_in (P : Z -> Prop) (s : usubst) : Prop := forall k x, In (k, x) s -> P k /\ vin P x.
+
+Lemma resolve_vin P s : svars_in P s -> forall v, P v -> vin P (resolve s v).
+Proof.
+  induction s as [|[k x] s IH]; intros Hs v Hv; [exact Hv|].
+  assert (Hs' : svars_in P s) by (intros k' x' Hin; apply Hs; right; auto).
+  rewrite resolve_cons. specialize (IH Hs' v Hv). destruct (resolve s v) as [c|u]; simpl; [exact I|].
+  destruct (u =? k); [apply (Hs k x); left; auto | exact IH].
+Qed.
+
+Lemma resolve_val_vin P s a : svars_in P s -> vin P a -> vin P (resolve_val s a).
+Proof. intros Hs. destruct a; simpl; [auto | apply resolve_vin; auto]. Qed.
+
+Lemma unify_uf_vin P s a b u : svars_in P s -> vin P a -> vin P b -> unify_uf s a b = Some u -> svars_in P u.
+Proof.
+  intros Hs Ha Hb. unfold unify_uf.
+  pose proof (resolve_val_vin P s a Hs Ha) as Ha'. pose proof (resolve_val_vin P s b Hs Hb) as Hb'.
+  destruct (resolve_val s a) as [c|v], (resolve_val s b) as [d|w]; simpl in *.
+  - destruct (const_eqb c d); [intros [= <-]; auto | discriminate].
+  - intros [= <-] k x [[= <- <-]|Hin]; [simpl; auto | auto].
+  - intros [= <-] k x [[= <- <-]|Hin]; [simpl; auto | auto].
+  - destruct (v =? w); intros [= <-]; auto. intros k x [[= <- <-]|Hin]; [simpl; auto | auto].
+Qed.
+
+Lemma unify_args_uf_vin P pvs : forall s cs u,
+  svars_in P s -> Forall (vin P) pvs -> unify_args_uf s pvs cs = Some u -> svars_in P u.
+Proof.
+  induction pvs as [|pv pvs IH]; intros s [|c cs] u Hs Hp H; cbn [unify_args_uf] in H; try discriminate.
+  - congruence.
+  - inversion Hp as [|? ? Hpv Hp']; subst.
+    destruct (unify_uf s pv (VConst c)) as [s1|] eqn:E; [|discriminate].
+    eapply IH; [|exact Hp'|exact H]. eapply unify_uf_vin; [exact Hs|exact Hpv|exact I|exact E].
+Qed.
+
+(* variables that occur as a whole argument / side (what is inside a function application
+   is evaluated to a constant and never enters a substitution) *)
+Definition dvar (t : term) : list Z := match t with TVar v => [v] | _ => [] end.
+Definition pvars (p : premise) : list Z :=
+  match p with
+  | PAtom a | PNeg a => flat_map dvar (aargs a)
+  | PEq l r | PIneq l r | PCmp _ l r => dvar l ++ dvar r
+  end.
+Definition bvars (body : list premise) : list Z := flat_map pvars body.
+
+Lemma eval_term_uf_vin P s t a : svars_in P s -> (forall v, In v (dvar t) -> P v) -> eval_term_uf s t = Some a -> vin P a.
+Proof.
+  intros Hs Ht H. destruct t as [v|c|f args].
+  - injection H as <-. apply resolve_vin; auto. apply Ht. left; auto.
+  - injection H as <-. exact I.
+  - unfold eval_term_uf in H. rewrite eval_term_g_app in H. destruct (eval_consts_g _ args); [|discriminate].
+    destruct (eval_fn f l); [|discriminate]. injection H as <-. exact I.
+Qed.
+
+Lemma eval_args_uf_vin P s : svars_in P s -> forall ts pvs,
+  (forall v, In v (flat_map dvar ts) -> P v) -> eval_args_uf s ts = Some pvs -> Forall (vin P) pvs.
+Proof.
+  intros Hs. unfold eval_args_uf. induction ts as [|t ts IH]; intros pvs Ht H; cbn [map_opt] in H.
+  - injection H as <-. constructor.
+  - destruct (eval_term_uf s t) as [x|] eqn:E; [|discriminate].
+    destruct (map_opt (eval_term_uf s) ts) as [r|]; [|discriminate]. injection H as <-. constructor.
+    + eapply eval_term_uf_vin; eauto. intros v Hv. apply Ht. cbn [flat_map]. apply in_or_app. auto.
+    + apply IH; auto. intros v Hv. apply Ht. cbn [flat_map]. apply in_or_app. auto.
+Qed.
+
+Lemma step_uf_vin P strict Sneg Spos p s us :
+  svars_in P s -> (forall v, In v (pvars p) -> P v) -> step_uf strict Sneg Spos p s = Some us ->
+  forall u, In u us -> svars_in P u.
+Proof.
+  intros Hs Hp H u Hu. destruct p as [a|a|l r|l r|op l r]; cbn [step_uf step_pure_uf pvars] in *.
+  - destruct (eval_args_uf s (aargs a)) as [pvs|] eqn:Ea; [|discriminate]. injection H as <-.
+    apply in_fmap in Hu as (f & _ & Hm). unfold match_fact_uf in Hm. destruct (fst f =? apred a); [|discriminate].
+    eapply unify_args_uf_vin; [exact Hs| |exact Hm]. eapply eval_args_uf_vin; eauto.
+  - destruct (eval_args_uf s (aargs a)) as [pvs|]; [|discriminate]. destruct (strict && _); [discriminate|].
+    injection H as <-. destruct (existsb _ Sneg); [destruct Hu|]. destruct Hu as [<-|[]]. exact Hs.
+  - destruct (eval_term_uf s l) as [a|] eqn:El; [|discriminate]. destruct (eval_term_uf s r) as [b|] eqn:Er; [|discriminate].
+    injection H as <-. destruct (unify_uf s a b) as [s'|] eqn:E; [|destruct Hu]. destruct Hu as [<-|[]].
+    eapply unify_uf_vin; [exact Hs| | |exact E].
+    + eapply eval_term_uf_vin; eauto. intros v Hv. apply Hp. apply in_or_app. auto.
+    + eapply eval_term_uf_vin; eauto. intros v Hv. apply Hp. apply in_or_app. auto.
+  - destruct (eval_term_uf s l) as [a|]; [|discriminate]. destruct (eval_term_uf s r) as [b|]; [|discriminate].
+    destruct (strict && _); [discriminate|]. injection H as <-.
+    destruct (unify_uf s a b); [destruct Hu|]. destruct Hu as [<-|[]]. exact Hs.
+  - destruct (eval_term_uf s l) as [[a|?]|]; try discriminate. destruct (eval_term_uf s r) as [[b|?]|]; try discriminate.
+    destruct (eval_cmp op a b) as [[|]|]; try discriminate; injection H as <-; [|destruct Hu].
+    destruct Hu as [<-|[]]. exact Hs.
+Qed.
+
+Lemma solve_uf_vin P strict Sneg sel body : forall k sols R,
+  Forall (svars_in P) sols -> (forall v, In v (bvars body) -> P v) ->
+  solve_uf strict Sneg sel k body sols = Some R -> Forall (svars_in P) R.
+Proof.
+  induction body as [|p b IH]; intros k sols R Hs Hb H; cbn [solve_uf] in H.
+  - congruence.
+  - destruct (flat_map_opt (step_uf strict Sneg (sel k) p) sols) as [sols'|] eqn:E; [|discriminate].
+    destruct (flat_map_opt_spec _ _ _ E) as [_ Hin].
+    eapply IH; [| |exact H].
+    + apply Forall_forall. intros u Hu. apply Hin in Hu as (s & us & Hsin & Hst & Huin).
+      eapply step_uf_vin; [exact (proj1 (Forall_forall _ _) Hs s Hsin)| |exact Hst|exact Huin].
+      intros v Hv. apply Hb. unfold bvars. cbn [flat_map]. apply in_or_app. auto.
+    + intros v Hv. apply Hb. unfold bvars. cbn [flat_map]. apply in_or_app. auto.
+Qed.
+
+(* ---- the head of a solution is a function of any of its models *)
+Definition upd (rho : val) (v : Z) (c : const) : val := fun w => if w =? v then c else rho w.
+
+Fixpoint glet (rho : val) (stmts : list (Z * term)) : option val :=
+  match stmts with
+  | [] => Some rho
+  | (v, t) :: rest => match geval rho t with Some c => glet (upd rho v c) rest | None => None end
+  end.
+
+Definition ghead (rho : val) (c : clause) : option fact :=
+  match glet rho (clet c) with
+  | None => None
+  | Some rho' => match gargs rho' (aargs (chead c)) with Some cs => Some (apred (chead c), cs) | None => None end
+  end.
+
+Lemma models_upd rho s v c : svars_in (fun w => w <> v) s -> models rho s -> models (upd rho v c) s.
+Proof.
+  intros Hs Hm k x Hin. destruct (Hs k x Hin) as [Hk Hx]. unfold upd at 1.
+  destruct (Z.eqb_spec k v); [contradiction|]. rewrite (Hm k x Hin). destruct x as [d|w]; simpl; [reflexivity|].
+  simpl in Hx. unfold upd. destruct (Z.eqb_spec w v); [contradiction | reflexivity].
+Qed.
+
+Lemma urow_get_sound rho s L : models rho s -> (forall v c, lookup v L = Some c -> rho v = c) ->
+  forall v, den rho (urow_get s L v) = rho v.
+Proof.
+  intros Hm HL v. unfold urow_get. destruct (lookup v L) as [c|] eqn:E.
+  - simpl. symmetry. auto.
+  - pose proof (resolve_sound rho s Hm v) as Hr. destruct (resolve s v); simpl in *; auto.
+Qed.
+
+Lemma run_let_uf_sound s stmts : forall L rho L',
+  svars_in (fun w => ~ In w (map fst stmts)) s ->
+  models rho s -> (forall v c, lookup v L = Some c -> rho v = c) ->
+  run_let_uf s L stmts = Some L' ->
+  exists rho', glet rho stmts = Some rho' /\ models rho' s /\ (forall v c, lookup v L' = Some c -> rho' v = c).
+Proof.
+  induction stmts as [|[v t] rest IH]; intros L rho L' Hd Hm HL H; cbn [run_let_uf glet] in *.
+  - injection H as <-. eauto.
+  - destruct (eval_term_g (urow_get s L) t) as [[c|?]|] eqn:E; try discriminate.
+    rewrite (eval_term_g_sound _ rho (urow_get_sound rho s L Hm HL) _ _ E). simpl.
+    apply (IH ((v, c) :: L) (upd rho v c) L'); auto.
+    + intros k x Hin. destruct (Hd k x Hin) as [A B]. split.
+      * intros Hk. apply A. right. exact Hk.
+      * destruct x as [d|w]; simpl in *; auto. intros Hw. apply B. right. exact Hw.
+    + apply models_upd; auto. intros k x Hin. destruct (Hd k x Hin) as [A B]. split.
+      * intros ->. apply A. left. reflexivity.
+      * destruct x as [d|w]; simpl in *; auto. intros ->. apply B. left. reflexivity.
+    + intros w d. cbn [lookup]. unfold upd. destruct (w =? v); [intros [= <-]; auto | auto].
+Qed.
+
+Lemma emit_head_uf_sound rho c s f :
+  svars_in (fun w => ~ In w (map fst (clet c))) s -> models rho s ->
+  emit_head_uf c s = Some f -> ghead rho c = Some f.
+Proof.
+  intros Hd Hm H. unfold emit_head_uf in H. unfold ghead.
+  destruct (eval_args_uf s (aargs (chead c))) as [pvs|] eqn:Ea; [|discriminate].
+  destruct (run_let_uf s [] (clet c)) as [L|] eqn:El; [|discriminate].
+  destruct (run_let_uf_sound s (clet c) [] rho L Hd Hm (fun v c0 (Hx : lookup v [] = Some c0) => match Hx with eq_refl => I end |> fun _ => eq_refl) El) as (rho' & Hg & Hm' & HL).
+  rewrite Hg.
+  destruct (map_opt (ground_value_uf s L) pvs) as [cs|] eqn:Eg; [|discriminate]. injection H as <-.
+  rewrite (eval_args_uf_sound _ _ Hm' _ _ Ea).
+  assert (E : map (den rho') pvs = cs).
+  { clear Ea. revert cs Eg. induction pvs as [|pv pvs IH]; intros cs Eg; cbn [map_opt map] in *.
+    - congruence.
+    - destruct (ground_value_uf s L pv) as [c0|] eqn:Ep; [|discriminate].
+      destruct (map_opt (ground_value_uf s L) pvs) as [r|]; [|discriminate]. injection Eg as <-.
+      rewrite (IH _ eq_refl). f_equal. destruct pv as [d|v]; simpl in *; [congruence|].
+      pose proof (urow_get_sound rho' s L Hm' HL v) as Hu. destruct (urow_get s L v); [|discriminate].
+      simpl in Hu. congruence. }
+  rewrite E. reflexivity.
 Qed.
